@@ -369,7 +369,9 @@ func (its *PushPullHandler) createDatatype() errors.OrdaError {
 
 func (its *PushPullHandler) initClientInfoWithDatatypeDoc() errors.OrdaError {
 	// the datatype may have been resolved by key: file everything under its own DUID
+	// and tell the client which datatype answered
 	its.DUID = its.datatypeDoc.DUID
+	its.resPushPullPack.DUID = its.datatypeDoc.DUID
 	its.subClientDoc = its.datatypeDoc.GetClientInDatatypeDoc(its.CUID, its.isReadOnly)
 	if its.subClientDoc != nil {
 		its.currentCP = its.subClientDoc.GetCheckPoint()
